@@ -229,15 +229,16 @@ func c03Dependents(c *core.Ctx, r *core.Report) {
 		r.Undecided("C03.R8", "role:Meta", "", "component_definition.Meta not found")
 		return
 	}
-	dependOn := c.DeclaredMethod(meta, "dependOn")
 	getDeps := c.DeclaredMethod(meta, "GetDependents")
 	stores, others := c.FieldAccesses(meta, "Dependent")
 	if !r.Floor("C03.R8", "writers of Meta.Dependent", len(stores), 1) {
 		return
 	}
+	// the recorder: located by what it does, whatever it is called
+	dependOn := dependentsRecorder(c)
 	for _, st := range stores {
 		cons := "Dependent-writer@" + core.FnName(st.Fn)
-		if st.Fn == dependOn {
+		if dependOn != nil && st.Fn == dependOn {
 			// append(load same field, dependent param)
 			call, ok := st.Store.Val.(*ssa.Call)
 			okApp := false
@@ -245,14 +246,14 @@ func c03Dependents(c *core.Ctx, r *core.Report) {
 				if bi, isB := call.Common().Value.(*ssa.Builtin); isB && bi.Name() == "append" {
 					if _, isLoad := core.IsFieldLoad(core.Norm(call.Common().Args[0]), meta, "Dependent"); isLoad {
 						for _, o := range core.Origins(call.Common().Args[1], nil) {
-							if p, isP := o.(*ssa.Parameter); isP && p == dependOn.Params[1] {
+							if p, isP := o.(*ssa.Parameter); isP && p.Parent() == dependOn && p != core.Norm(st.Addr.X) {
 								okApp = true
 							}
 						}
 					}
 				}
 			}
-			r.Check(okApp, "C03.R8", cons, c.Pos(st.Instr.Pos()), "dependOn appends the holder it was given to the version's dependents")
+			r.Check(okApp, "C03.R8", cons, c.Pos(st.Instr.Pos()), "the recorder appends the holder it was given to the version's dependents")
 			continue
 		}
 		// composite-literal initialisation of a fresh Meta is fine (copying the list into a proxy shell)
